@@ -17,7 +17,7 @@ CHECKS = {
              text="Exploration: after every generated ply the incrementally updated board is compared with the same position parsed from the reference FEN (and built with the builder): legal sets, check, state, hash, text and both debug renderings (which expose cached pin/check squares); in_check/state are compared with the reference classification. Check mechanisms are forced by generator bias classes and counted.",
              ref="4 C03", note=LEVEL_NOTE_REF),
  "C05": dict(tech="property-based round-trip testing (board -> FEN -> board, canonical FEN -> board -> FEN) against an independent FEN writer",
-             text="Exploration: every board visited by generated playouts must print exactly the reference writer's canonical FEN, re-parse to an equal board (clocks, hash, debug forms), and every canonical FEN must reproduce itself; parser/builder/standard() agreement including generated builder histories with rejected placements and removals; a directed product of all 16 rights subsets x 17 marker states x clock values.",
+             text="Exploration: every board visited by generated playouts must print exactly the reference writer's canonical FEN, re-parse to an equal board (clocks, hash, debug forms), and every canonical FEN must reproduce itself; parser/builder/standard() agreement including generated builder histories with rejected placements and removals; directed products: all 16 rights subsets x 17 marker states x clock values on a skeleton, the standard placement x 16 rights subsets x side to move x clocks, reachable material extremes (nine queens, ten knights/bishops/rooks), longest FEN texts with reachable material.",
              ref="4 C05", note=LEVEL_NOTE_REF),
 }
 
@@ -52,7 +52,7 @@ CHECKS.update({
 
 CHECKS.update({
  "C06": dict(tech="property-based testing / fuzzing of the FEN parser and builder: byte-string and structure-aware generators with a validity predicate oracle (proptest; libFuzzer target in thorough)",
-             text="Exploration: seven generators (raw bytes, token soup, field-structured soup, canonical FENs with 1-4 edits, well-formed but semantically wrong FENs by construction, canonical FENs of reachable positions, builder scripts) drive parse_fen / str::parse / BoardBuilder under catch_unwind; every accepted board is read back and must satisfy the playability predicate clause by clause; reachable positions must be accepted and equal the lockstep board. Acceptance rate per generator is in evidence.",
+             text="Exploration: seven generators (raw bytes, token soup, field-structured soup, canonical FENs with 1-4 edits, well-formed but semantically wrong FENs by construction, canonical FENs of reachable positions, builder scripts) drive parse_fen / str::parse / BoardBuilder under catch_unwind; every accepted board is read back and must satisfy the playability predicate clause by clause; reachable positions (including the material extremes) must be accepted and equal the lockstep board; unreachable-but-playable positions are only held to totality and playability. A process-level stage starts the real chess-cli binary on ~570 (quick) byte-string position arguments (canonical FENs, multi-byte characters inserted at every early byte offset, non-UTF-8 bytes, keyword-like prefixes, token soup): a panic of the process is a violation. Acceptance rate per generator is in evidence.",
              ref="4 C06", note=LEVEL_NOTE_REF),
  "C10": dict(tech="model-based (stateful) property testing: generated iterator-operation sequences against a set model with admissible-fork handling of two recorded findings",
              text="Exploration: generated op lists (next, len/is_empty/size_hint, set_mask, remove, remove_move, clone, count, final cover under complementary masks) on positions reached by generated playouts, legals() and legals_masked() starts, and king_legals(side to move) starts, compared after every op with the set model R/M built from the reference legal moves. Divergences are violations unless the history matches one of the two open findings recorded in known_findings.json (evaluated on the history; 60% of cases avoid them by construction so that the search continues behind them).",
@@ -63,7 +63,7 @@ LEVEL_NOTE_ENGINE = (LEVEL_NOTE_REF + " The engine is observed through public AP
                      "that records the engine's own 'start depth' event; if that log line disappears the clauses that need pass boundaries are dropped, never alarmed on.")
 CHECKS.update({
  "C07": dict(tech="stateful API fuzzing (proptest op scripts + directed boundary families) in a checked build profile (debug assertions + overflow checks); oracle = no trap",
-             text="Exploration: generated scripts over every operation family the property names (construct via parser/builder incl. pawns on back ranks and clocks up to u16::MAX, generate/mask/iterate/remove, apply, hash, print in every format, perft, search with counting timeouts, repetition table, book descent, bitboard iterators with n up to usize::MAX) plus directed boundary families (18-entry capacity positions, 218-move position, 16-bit clocks, >255 repetitions, 65536+ cheap deepening passes) run in a profile where unchecked fast paths, debug assertions and arithmetic overflow trap. Any panic, abort or signal is a violation.",
+             text="Exploration: generated scripts over every operation family the property names (construct via parser/builder incl. pawns on back ranks and clocks up to u16::MAX, generate/mask/iterate/remove, apply, hash, print in every format, perft, search with counting timeouts, repetition table, book descent, bitboard iterators with n up to usize::MAX) plus directed boundary families (18-entry capacity positions, 218-move position, 16-bit clocks, >255 repetitions, 65536+ cheap deepening passes, and the accepted-but-unreachable family 'en-passant marker while in check from a piece other than the double-stepped pawn' with three plies of perft) run in a profile where unchecked fast paths, debug assertions and arithmetic overflow trap. Any panic, abort or signal is a violation.",
              ref="4 C07", note="Trusted base: rustc's debug-assertion / overflow-check instrumentation and std's unsafe-precondition checks; proptest. UB that neither traps in the checked profile nor crashes is not observable (stated in DESIGN.md section 7)."),
  "C11": dict(tech="fault/schedule enumeration over the timeout-expiry instant k with a counting Timeout (every k up to the second pass boundary, boundaries +-3, generated k), legality oracle from the reference model",
              text="Exploration: for each generated position one instrumented run yields the poll counts at which deepening passes start; the search is then re-run with the limit expiring at poll k for every k up to min(s_2, 300/800), around every boundary and at generated values. Release and checked (overflow-trapping) profiles. For each k: returns within a poll bound after expiry, no panic (also with INFO/DEBUG logging enabled for small k and around boundaries), move None or reference-legal, None iff no legal move, Some once the first pass finished or whenever the search returns by itself, Some monotone in k. If the engine's pass log line is missing the boundaries are recovered by bisection over public results.",
@@ -75,7 +75,7 @@ CHECKS.update({
              text="Exploration: each generated position without a promotion move at the root and its colour mirror are searched to every depth both complete within the poll cap; the committed scores must be negations of each other (mate-in-n swaps colour); when a mate score ends the deepening the final scores and pass counts are compared as well. Half of the positions are mating nets, sparse material and tactical back-rank positions. Moves are not compared.",
              ref="4 C13", note=LEVEL_NOTE_ENGINE),
  "C15": dict(tech="model-based (stateful) testing of the built plugin through its stable ABI: generated set-board / move / shuffle / evaluate sequences against the reference position and an occurrence map",
-             text="Exploration: libchess_bot.so built from the working tree is driven through chess_api::ChessEngine with generated op lists including reversible manoeuvres that create third and later occurrences, illegal triples and near misses of legal moves, set_board (also with the current position), evaluate with counting timeouts, and a directed >255-repetition shuffle. Validity, reported board, threefold flag (exactly on the third occurrence under the calibrated counting reading) and legality of the proposed move are compared with the model.",
+             text="Exploration: libchess_bot.so built from the working tree is driven through chess_api::ChessEngine with generated op lists including reversible manoeuvres that create third and later occurrences, illegal triples and near misses of legal moves, set_board (also with the current position), evaluate with counting timeouts, and a directed >255-repetition shuffle. Validity, reported board, threefold flag (exactly on the third occurrence under the calibrated counting reading) and legality of the proposed move are compared with the model. A host stage lets two copies of the plugin play each other under the real `chess-cli bot-fight` referee (an anchor of the property) at 1 ms, 3 ms and 0 s per move; a panic or abort of the host is a violation.",
              ref="4 C15", note=LEVEL_NOTE_REF + " abi_stable's loader; the occurrence-counting reading is calibrated at run start rather than assumed."),
 })
 
